@@ -34,7 +34,8 @@ DefPool == <<
   Call("F1", <<G1("D1")>>),                                                               \* 21
   Call("F1", <<Node("SET_MINUS", <<G1("X1"), G1("X1")>>)>>),                              \* 22 F1 of the empty set
   Node("BOOLEAN", <<G1("X2")>>),                                                          \* 23 structure domain over a base set that may not exist (yet)
-  G1("S1")                                                                                \* 24 the structure's data
+  G1("S1"),                                                                               \* 24 the structure's data
+  Idx("BIGPR", <<2>>, <<G1("S1")>>)                                                       \* 25 differs from 9 only in the index
 >>
 Toks(d) == IF d = NoDef THEN <<>> ELSE Render(d, FALSE).t
 Fresh1 == CHOOSE u \in 1..(MaxCst + 6) : u \notin Ids /\ \A v \in 1..(MaxCst + 6) : v \notin Ids => u <= v
@@ -43,8 +44,8 @@ Fresh1 == CHOOSE u \in 1..(MaxCst + 6) : u \notin Ids /\ \A v \in 1..(MaxCst + 6
 \* "late" (D1 := X2 is defined before the base set X2 exists; base sets are inserted and erased during the history)
 \* "lates" (as "late", and a structure S1 : B(X2) is created before or after X2, given data, X2 erased and created again)
 \* "func" (a term-function F1 whose body is edited while terms that call it, directly or through another term, are calculated)
-TermDefs == CASE Preset = "struct" -> {2, 3, 9, 14} [] Preset = "late" -> {3, 15, 16} [] Preset = "lates" -> {24} [] Preset = "func" -> {2, 18, 21, 22} [] OTHER -> {2, 3, 4, 5, 6, 7, 8, 13}
-EditDefs == CASE Preset = "struct" -> {2, 9, 14} [] Preset = "late" -> {2, 15, 16} [] Preset = "lates" -> {} [] Preset = "func" -> {2, 18, 21} [] OTHER -> {2, 3, 4, 5, 6, 8, 13}
+TermDefs == CASE Preset = "struct" -> {2, 3, 9, 14, 25} [] Preset = "late" -> {3, 15, 16} [] Preset = "lates" -> {24} [] Preset = "func" -> {2, 18, 21, 22} [] OTHER -> {2, 3, 4, 5, 6, 7, 8, 13}
+EditDefs == CASE Preset = "struct" -> {2, 9, 14, 25} [] Preset = "late" -> {2, 15, 16} [] Preset = "lates" -> {} [] Preset = "func" -> {2, 18, 21} [] OTHER -> {2, 3, 4, 5, 6, 8, 13}
 FuncEditDefs == IF Preset = "func" THEN {17, 19, 20} ELSE {}
 \* (incl. same-size replacements that differ only in an interior key: {1,2,4} / {1,3,4})
 KeySets == IF Preset = "lates" THEN {{1}, {1, 2}} ELSE IF Preset \in {"struct", "late", "func"} THEN {{1}, {1, 3}, {2, 3}} ELSE (SUBSET {1, 2, 3}) \cup {{1, 2, 4}, {1, 3, 4}}
